@@ -9,6 +9,7 @@ From Coq Require Import List Arith NArith ZArith Bool.
 Import ListNotations.
 Require Import PV.Stack.Model PV.Stack.Proofs PV.Comb.PState PV.Comb.Bytes PV.Comb.Prog PV.Comb.Exec
                PV.Comb.Frame PV.Comb.Contracts PV.Comb.Utf8 PV.Comb.Utf8b PV.Comb.Utf8c.
+Require Import PV.Comb.Ref PV.Comb.RefProofs.
 
 (* (1) a failed sequence leaves position, emitted tokens and stack contents as they were
        (tokens up to node tags, see C03_sequence_tag_refuted), and look-ahead / atomicity too *)
@@ -141,6 +142,61 @@ Example C03_example_restore :
   end.
 Proof. vm_compute. auto. Qed.
 
+(* (7) reference clause: "the whole observable outcome equals that of a direct executable reading
+   of these documented contracts, with and without the memchr-accelerated search".
+   Ref.rexec is that reading (plain stack, no counters, no bookkeeping; a failed sequence / any
+   look-ahead return the state they were given); abs forgets what the documentation does not
+   mention and reads the snapshot stack through its live contents.
+   The FULL statement is false, for the one known reason (C03-tag-in-failed-sequence): *)
+Definition C03_reference_clause_full : Prop :=
+  forall cfg E fuel p s a, wf s -> Inv (stack s) a -> limit s = None ->
+    abs_res (exec cfg E fuel p s) = rexec cfg E fuel p (abs s).
+
+Theorem C03_reference_full_refuted : ~ C03_reference_clause_full.
+Proof. exact exec_refines_ref_refuted. Qed.
+
+(* What holds, for every configuration, environment, fuel, program and start state:
+   (a) EXACT equality with the reference in which the failure clause of `sequence` alone is read
+       as coded (tokens = queue truncated to its old length, so a tag written on the last old
+       token survives): this is the only clause where code and documentation part;
+   (b) exact equality with the fully documented reference for programs (and closures) that
+       never call tag_node  [KnownClass = "calls tag_node"];
+   (c) equality with the fully documented reference up to the node tags, for all programs;
+   (d) the reference outcome does not depend on the memchr feature, and the code built with
+       memchr refines the reference that searches with the plain loop. *)
+Definition C03_reference_clause : Prop :=
+  (forall cfg E fuel p s a, wf s -> Inv (stack s) a -> limit s = None ->
+     abs_res (exec cfg E fuel p s) = rexec_gen TagLeak cfg E fuel p (abs s)) /\
+  (forall cfg E fuel p s a, notag_env E -> notag p = true -> wf s -> Inv (stack s) a -> limit s = None ->
+     abs_res (exec cfg E fuel p s) = rexec cfg E fuel p (abs s)) /\
+  (forall cfg E fuel p s a, wf s -> Inv (stack s) a -> limit s = None ->
+     rreq (abs_res (exec cfg E fuel p s)) (rexec cfg E fuel p (abs s))) /\
+  (forall cfg1 cfg2 E fuel p s a, cfg_ok cfg1 -> cfg_ok cfg2 -> env_valid E -> prog_valid p ->
+     wf s -> Inv (stack s) a -> utf8_ok s -> limit s = None ->
+     rexec_gen TagLeak cfg1 E fuel p (abs s) = rexec_gen TagLeak cfg2 E fuel p (abs s)) /\
+  (forall E fuel p s a l1 l2 f2, env_valid E -> prog_valid p -> wf s -> Inv (stack s) a -> utf8_ok s -> limit s = None ->
+     abs_res (exec {| memchr := true; fixed3 := true; fixedlim := l1 |} E fuel p s) =
+     rexec_gen TagLeak {| memchr := false; fixed3 := f2; fixedlim := l2 |} E fuel p (abs s)).
+
+Theorem C03_reference : C03_reference_clause.
+Proof.
+  split; [exact exec_refines_tagleak|]. split; [exact exec_refines_ref_notag|].
+  split; [exact exec_refines_ref_untag|]. split; [exact ref_independent_of_memchr|exact exec_memchr_refines_plain_ref].
+Qed.
+
+(* from the initial state of a parse, with or without error detail *)
+Theorem C03_reference_init : forall cfg E fuel p inp detail,
+  abs_res (run_state cfg E fuel p inp None detail) = rexec_gen TagLeak cfg E fuel p (rinit inp) /\
+  rreq (abs_res (run_state cfg E fuel p inp None detail)) (rexec cfg E fuel p (rinit inp)) /\
+  (notag_env E -> notag p = true -> abs_res (run_state cfg E fuel p inp None detail) = rexec cfg E fuel p (rinit inp)).
+Proof.
+  intros. split; [apply exec_refines_tagleak_init|]. split; [apply exec_refines_ref_untag_init|].
+  intros. now apply exec_refines_ref_init.
+Qed.
+
 Print Assumptions C03_combinators_partial.
+Print Assumptions C03_reference.
+Print Assumptions C03_reference_full_refuted.
+Print Assumptions C03_reference_init.
 Print Assumptions C03_sequence_tag_refuted.
 Print Assumptions C03_memchr_unfixed_refuted.
